@@ -508,7 +508,7 @@ fn walk_rec(
 }
 
 /// Number of leaves (defined or not) whose true region is FAT: the full-dimensional pieces.
-pub fn count_fat_leaves(t: &ModelTree, stats: &mut WalkStats) -> usize {
+pub fn count_fat_leaves(t: &ModelTree, bound: Option<f64>, stats: &mut WalkStats) -> usize {
     fn rec(dim: usize, t: &RTree, region: &mut Vec<Row>, stats: &mut WalkStats) -> usize {
         stats.cells += 1;
         if width(dim, region).class() != Class::Fat {
@@ -531,7 +531,11 @@ pub fn count_fat_leaves(t: &ModelTree, stats: &mut WalkStats) -> usize {
             }
         }
     }
-    rec(t.in_dim, &t.root, &mut Vec::new(), stats)
+    let mut region = match bound {
+        Some(bd) => box_rows(t.in_dim, bd),
+        None => Vec::new(),
+    };
+    rec(t.in_dim, &t.root, &mut region, stats)
 }
 
 #[cfg(test)]
